@@ -41,7 +41,7 @@ def main() -> int:
         src = registry.audit_source()
         if not os.path.exists(audit_p) or open(audit_p).read() != src:
             open(audit_p, "w").write(src)
-        audit = lib.build_and_audit()
+        audit = lib.build_and_audit(args.tier)
         run = lib.Run(prop, args.tier, seed)
         run.theorems = list(registry.THEOREMS.get(prop, []))
         if args.replay:
